@@ -65,6 +65,7 @@ def generate(prop, rng):
             q = {"op": o, "kind": kind, "objs": rng.sample(labels, rng.randint(1, min(3, len(labels))))}
             if kind == "verify_add":
                 q["corrupt"] = rng.random() < 0.7
+                q["evict_first"] = rng.random() < 0.7  # the objects are not in the store yet: add() really copies
                 q["objs"] = rng.sample(labels, min(len(labels), rng.choice([1, 2, 3, 3])))
             ops.append(q)
     return {"prop": prop, "cfg": cfg, "contents": [gen.enc(b) for b in pool], "tree": tree, "ops": ops}
@@ -351,6 +352,11 @@ def execute(sc, ctx):
             if cfg.get("read_only"):
                 continue
             srcs, pre = [], {}
+            if op.get("evict_first"):
+                for o in objs:
+                    w.raw_rm("cache", cfg["store"], o)
+                    M[o]["present"] = False
+                    M[o]["bytes"] = good[o]
             for j, o in enumerate(objs):
                 src = w.p("vsrc", f"s{n}_{j}")
                 data = good[o]
@@ -359,7 +365,7 @@ def execute(sc, ctx):
                     data = data + b"~corrupt"
                 w.raw_write(src, data)
                 srcs.append(src)
-                pre[o] = tampered(o)
+                pre[o] = M[o]["present"] and M[o]["bytes"] != good[o]
             try:
                 odb.add(srcs, w.localfs, list(objs), verify=True)
             except Exception as exc:  # noqa: BLE001
